@@ -66,7 +66,7 @@ extern "C" int pthread_create(pthread_t *t, const pthread_attr_t *a, void *(*fn)
 #endif
 
 enum Api { ENQ = 0, TRY = 1, RES = 2 };
-enum Kind { QUICK = 0, SLEEP = 1, THROW = 2, NEST = 3, LATCH = 4, LONG = 5 };
+enum Kind { QUICK = 0, SLEEP = 1, THROW = 2, NEST = 3, LATCH = 4, LONG = 5, THROWINT = 6, THROWSTR = 7 };
 
 struct TaskRec
 {
@@ -114,6 +114,8 @@ static int taskBody(Scn *S, size_t id, int kind, uint64_t salt)
   case SLEEP: vf::sleepMs(0.05 * double(salt % 40)); break;
   case LONG: vf::sleepMs(double(salt)); break; // salt = duration in ms
   case THROW: throw std::runtime_error("task-" + std::to_string(id));
+  case THROWINT: throw int(id) * 5 + 2;                       // not derived from std::exception
+  case THROWSTR: throw std::string("task-" + std::to_string(id));
   case NEST:
   {
     size_t child = S->childBase + size_t(S->nextChild.fetch_add(1));
@@ -246,7 +248,7 @@ static bool runScenario(uint64_t seed, uint64_t idx)
         int api = int(r.below(3));
         int kind;
         if (pattern == 0) kind = useLatch ? LATCH : QUICK;
-        else { uint64_t x = r.below(20); kind = x < 9 ? QUICK : x < 13 ? SLEEP : x < 16 ? THROW : x < 19 ? NEST : (useLatch ? LATCH : QUICK); }
+        else { uint64_t x = r.below(20); kind = x < 9 ? QUICK : x < 13 ? SLEEP : x < 16 ? (x == 14 ? THROWINT : x == 15 ? THROWSTR : THROW) : x < 19 ? NEST : (useLatch ? LATCH : QUICK); }
         // racing stop(): hold some submitters between "spawn decided" and "worker created"
         tlsCreateDelayUs = (pattern == 2 && r.chance(0.25)) ? uint32_t(r.range(5000, 90000)) : 0;
         tlsPreLockDelayUs = (pattern == 2 && r.chance(0.5)) ? uint32_t(r.range(20, 600))
@@ -339,7 +341,7 @@ static bool runScenario(uint64_t seed, uint64_t idx)
     return d.str();
   };
   if (!stopOk) O.viol("C09:stop-reported-failure", "drain()/stop() reported failure although every task is bounded: " + stopMsg, det("\"x\":0"));
-  uint64_t accepted = 0, refused = 0, ran0 = 0, ranMany = 0, lateStart = 0, lateExit = 0, refusedRan = 0, futBad = 0, thrown = 0, badReason = 0, fullUnjust = 0, drainUnjust = 0;
+  uint64_t accepted = 0, refused = 0, ran0 = 0, ranMany = 0, lateStart = 0, lateExit = 0, refusedRan = 0, futBad = 0, thrown = 0, thrownNonStd = 0, badReason = 0, fullUnjust = 0, drainUnjust = 0;
   std::string badReasonText;
   for (size_t i = 0; i < S->recs.size(); i++)
   {
@@ -352,7 +354,8 @@ static bool runScenario(uint64_t seed, uint64_t idx)
       accepted++;
       if (runs == 0) ran0++;
       if (runs > 1) ranMany++;
-      if (r.kind == THROW) thrown++;
+      if (r.kind == THROW || r.kind == THROWINT || r.kind == THROWSTR) thrown++;
+      if (r.kind == THROWINT || r.kind == THROWSTR) thrownNonStd++;
       if (runs && r.entryNs.load() > S->fenceNs.load()) lateStart++;
       if (runs && r.exitNs.load() > S->fenceNs.load()) lateExit++;
       if (r.hasFut)
@@ -360,9 +363,12 @@ static bool runScenario(uint64_t seed, uint64_t idx)
         if (!r.fut.valid() || r.fut.wait_for(std::chrono::seconds(0)) != std::future_status::ready) futBad++;
         else
         {
-          try { int v = r.fut.get(); if (r.kind == THROW || v != int(i) * 3 + 1) futBad++; }
+          bool threw = r.kind == THROW || r.kind == THROWINT || r.kind == THROWSTR;
+          try { int v = r.fut.get(); if (threw || v != int(i) * 3 + 1) futBad++; }
           catch (const std::runtime_error &e) { if (r.kind != THROW || std::string(e.what()) != "task-" + std::to_string(i)) futBad++; }
-          catch (...) { futBad++; }
+          catch (int v) { if (r.kind != THROWINT || v != int(i) * 5 + 2) futBad++; }
+          catch (const std::string &w) { if (r.kind != THROWSTR || w != "task-" + std::to_string(i)) futBad++; }
+          catch (...) { futBad++; } // e.g. future_error(broken_promise): the task's own exception was lost
         }
       }
     }
@@ -402,7 +408,7 @@ static bool runScenario(uint64_t seed, uint64_t idx)
     O.obs("scenarios_in_second_life");
     if (earlyRan.load() != earlyAtRestart) O.viol("C09:first-life-task-ran-in-second-life", "a task of the pool's first life ran after stop() -> reset() -> start()", det("\"count\":" + std::to_string(earlyRan.load() - earlyAtRestart)));
   }
-  O.obs("scenarios"); O.obs("tasks_accepted", accepted); O.obs("tasks_refused", refused); O.obs("tasks_throwing", thrown);
+  O.obs("scenarios"); O.obs("tasks_accepted", accepted); O.obs("tasks_refused", refused); O.obs("tasks_throwing", thrown); O.obs("tasks_throwing_non_std_exception", thrownNonStd);
   O.obs("late_submission_refused_cleanly", lateRefusedOk);
   O.obs(std::string("shutdown_kind_") + (shutdownKind == 0 ? "destructor" : shutdownKind == 1 ? "stop" : shutdownKind == 2 ? "drain_stop" : shutdownKind == 3 ? "stop_racing_submitters" : "shutdown_racing_submitters"));
   O.obs(std::string("pattern_") + (pattern == 0 ? "tight_burst" : pattern == 1 ? "streams" : pattern == 2 ? "stop_race" : "idle_exit_race"));
